@@ -915,7 +915,16 @@ def c20_groups(mir, ctx):
 # driver
 # --------------------------------------------------------------------------
 
-BUILDERS = {"C18": c18_groups, "C19": c19_groups, "C14": c14_groups, "C20": c20_groups, "C09": c20_groups}
+def _proto(which):
+    def build(mir, ctx):
+        from .mir_protocol import protocol_groups
+        return protocol_groups(mir, ctx, which)
+    return build
+
+
+BUILDERS = {"C18": c18_groups, "C19": c19_groups, "C14": c14_groups, "C20": c20_groups, "C09": c20_groups,
+            "C01": _proto({"mutators", "finish", "close"}), "C10": _proto({"mutators", "finish"}),
+            "C15": _proto({"finish", "close"})}
 
 
 def native_confirm_c18(vals, work):
